@@ -400,6 +400,7 @@ type ZMapKinds struct {
 	L map[string][]int32
 	F map[int64]float64
 	U map[string]uint16
+	T map[string]time.Time
 }
 
 // H_C01_map_values: maps whose values are structs (by value and by pointer, the struct type reachable only through
@@ -407,8 +408,14 @@ type ZMapKinds struct {
 func H_C01_map_values() {
 	x := vInt32("x")
 	v := &ZMapKinds{}
-	which := vChoice("which", 6)
+	which := vChoice("which", 9)
 	switch which {
+	case 6: // a null value beside a real one: the entry stays, with a nil pointer
+		v.P = map[string]*ZInner{"k": nil, "j": {N: x, S: "s"}}
+	case 7: // a nil list value (comes back nil or empty) beside a real one
+		v.L = map[string][]int32{"k": nil, "j": {x}}
+	case 8: // the zero time travels as null
+		v.T = map[string]time.Time{"k": {}, "j": time.Unix(int64(x), 0)}
 	case 0:
 		v.S = map[string]ZInner{"k": {N: x, S: "s"}}
 	case 1:
@@ -429,8 +436,20 @@ func H_C01_map_values() {
 	vAssert("decode-noerr", err == nil)
 	g, ok := out.(*ZMapKinds)
 	vAssert("type", ok)
-	vAssert("sizes", len(g.S) == len(v.S) && len(g.P) == len(v.P) && len(g.I) == len(v.I) && len(g.L) == len(v.L) && len(g.F) == len(v.F) && len(g.U) == len(v.U))
+	vAssert("sizes", len(g.S) == len(v.S) && len(g.P) == len(v.P) && len(g.I) == len(v.I) && len(g.L) == len(v.L) && len(g.F) == len(v.F) && len(g.U) == len(v.U) && len(g.T) == len(v.T))
 	switch which {
+	case 6:
+		e, has := g.P["k"]
+		j, hasj := g.P["j"]
+		vAssert("null-pointer-value", has && e == nil && hasj && j != nil && j.N == x)
+	case 7:
+		e, has := g.L["k"]
+		j, hasj := g.L["j"]
+		vAssert("nil-list-value", has && len(e) == 0 && hasj && len(j) == 1 && j[0] == x)
+	case 8:
+		e, has := g.T["k"]
+		j, hasj := g.T["j"]
+		vAssert("zero-time-value", has && e.IsZero() && hasj && j.Unix() == int64(x))
 	case 0:
 		e, has := g.S["k"]
 		vAssert("struct-value", has && e.N == x && e.S == "s")
